@@ -107,6 +107,7 @@ class Executor:
         self.global_objs = {}
         self.global_init = {}    # name -> python value tree from native dump
         self.global_override = {}
+        self.global_zero = set()
         self.task = 0            # current goroutine id (0 = main)
         self.next_task = 1
         self.access_log = None   # list when enabled
@@ -548,6 +549,12 @@ class Executor:
             try:
                 cells = build_global(self, self.global_init[name], tid)
                 ptr = self.alloc(tid, label="global " + name, cells=cells)
+            finally:
+                self.logs = logs
+        elif name in self.global_zero or self.prog.ncells(tid) == 0:
+            logs, self.logs = self.logs, []
+            try:
+                ptr = self.alloc(tid, label="global " + name)
             finally:
                 self.logs = logs
         else:
